@@ -3,17 +3,17 @@ package main
 // check: the per-property deciding step (obligations vs. baseline, known findings, evidence).
 
 import (
-	"sync"
 	"encoding/json"
-	"os/exec"
 	"flag"
 	"fmt"
 	"os"
+	"os/exec"
 	"path/filepath"
 	"regexp"
 	"sort"
 	"strconv"
 	"strings"
+	"sync"
 	"time"
 )
 
@@ -202,7 +202,7 @@ func checkMain(args []string) {
 	if !*update {
 		var again []*OblResult
 		for _, r := range results {
-			if r.OK || r.O.Expect == "sat" || !base[oblClass(r.O.Name)] || len(again) >= 12 {
+			if r.OK || !base[oblClass(r.O.Name)] || len(again) >= 12 {
 				continue
 			}
 			if r.R.Status != "timeout" && r.R.Status != "unknown" && r.R.Status != "error" {
@@ -216,9 +216,15 @@ func checkMain(args []string) {
 			go func(r *OblResult) {
 				defer wg.Done()
 				r2 := solve(r.Qry, dir, r.O.Name+"_retry", 4*secs, nil)
-				if r2.Status == "unsat" {
+				want := "unsat"
+				if r.O.Expect == "sat" {
+					want = "sat"
+				}
+				if r2.Status == want {
 					r.R = r2
 					r.OK = true
+				} else if r.O.Expect == "sat" && r2.Status == "unsat" {
+					r.R = r2 // the precondition IS contradictory
 				}
 			}(r)
 		}
@@ -236,8 +242,18 @@ func checkMain(args []string) {
 	var reports []oblReport
 	var undecided []string
 	byClassFail := map[string][]*OblResult{}
+	var vacuityOpen []string
 	for _, r := range results {
 		c := oblClass(r.O.Name)
+		if r.O.Expect == "sat" && !r.OK && r.R.Status != "unsat" && !*update {
+			// A vacuity guard asks the solver for a model of the precondition. Only "unsat" says the precondition is
+			// contradictory; running out of time says nothing about the code, so it is reported as open, not as a violation,
+			// and is left out of the counts.
+			classSeen[c] = true
+			vacuityOpen = append(vacuityOpen, r.O.Name+" ("+r.R.Status+")")
+			r.Skip = true
+			continue
+		}
 		if !classSeen[c] {
 			classSeen[c] = true
 			classOK[c] = true
@@ -288,7 +304,7 @@ func checkMain(args []string) {
 	claimed, discharged := 0, 0
 	for _, r := range results {
 		c := oblClass(r.O.Name)
-		if base[c] {
+		if base[c] && !r.Skip {
 			claimed++
 			if r.OK {
 				discharged++
@@ -432,6 +448,16 @@ func checkMain(args []string) {
 	for _, e := range errs {
 		fmt.Println("note: not translated: " + e)
 	}
+	if len(vacuityOpen) > 0 {
+		fmt.Printf("note: %d vacuity guards (precondition satisfiable) got no answer from the solvers in this run and are not counted: %s\n", len(vacuityOpen), trunc(strings.Join(vacuityOpen, ", "), 400))
+		for _, v := range vacuityOpen {
+			undecided = append(undecided, "vacuity guard open: "+v)
+		}
+	}
+	for _, n := range anchorNoteList() {
+		fmt.Println("note: " + n)
+		undecided = append(undecided, n)
+	}
 	wall := time.Since(t0).Seconds()
 	writeEvidence(evPath, *prop, *tier, seed, reports, frs, ps, prog, wall, violations, append(undecided, errs...), &evCounts{claimed: claimed, discharged: discharged, known: knownLines, base: base, bounded: boundedReports})
 	fmt.Printf("%s %s: %d obligations claimed, %d discharged, %d known findings, %d violations, %.1fs\n", *prop, *tier, claimed, discharged, len(knownLines), violations, wall)
@@ -441,7 +467,9 @@ func checkMain(args []string) {
 }
 
 func isSafetyClass(c string) bool {
-	for _, k := range []string{"#index", "#slice", "#nil", "#div", "#assert", "#make", "#panic", "#overflow", "#nilmap", "#call("} {
+	// (a frame obligation is only generated for a heap component the function writes: it disappears when the code no
+	// longer touches the component, which satisfies it trivially)
+	for _, k := range []string{"#index", "#slice", "#nil", "#div", "#assert", "#make", "#panic", "#overflow", "#nilmap", "#call(", "#frame("} {
 		if strings.Contains(c, k) {
 			return true
 		}
